@@ -21,7 +21,7 @@ import numpy as np
 
 from . import core
 
-MECH = dict(MSkip="none", MLoadMissing="none", MLayerCond=True, MRestoreDual=True, MPolyAsHeld=True)
+MECH = dict(MSkip="none", MLoadMissing="none", MLayerCond=True, MRestoreDual=True, MPolyAsHeld=True, MDynAlways=True)
 PINNED = dict(MECH, MLoadMissing="default")
 INVARIANTS = ["TypeOK", "LoadSaveIdentity", "FileHoldsContent", "MeshRestoredEqualsRecomputed"]
 
@@ -197,18 +197,20 @@ def guarded(fn):
 _BASE = {}
 
 
-def base_solution(tdgl, tmp, nsteps=5, k=2, kind="barhole", composite=None):
-    """A tiny real run (fixed step): nsteps steps, a frame every k steps; cached per process."""
+def base_solution(tdgl, tmp, nsteps=5, k=2, kind="barhole", probes=2, screening=False, nofile=False):
+    """A tiny real run (fixed step): nsteps steps, a frame every k steps; cached per process.
+    nofile: run with output_file=None (the Solution returned by solve() is then not backed by a file)."""
     from . import devices
 
-    key = (nsteps, k, kind, tmp)
-    if key in _BASE and os.path.exists(_BASE[key].path):
+    key = (nsteps, k, kind, probes, screening, nofile, tmp)
+    if key in _BASE and (nofile or os.path.exists(_BASE[key].path)):
         return _BASE[key]
-    dev = devices.make(tdgl, kind, mel=1.3, probes=2)
+    dev = devices.make(tdgl, kind, mel=1.3, probes=probes)
     d = tempfile.mkdtemp(prefix="pbase", dir=tmp)
     dt = 2.0 ** -6
     opts = tdgl.SolverOptions(solve_time=max(nsteps * dt - dt / 2, 0.0), dt_init=dt, dt_max=dt, adaptive=False, save_every=k,
-                              output_file=os.path.join(d, "base.h5"), progress_interval=10 ** 9)
+                              output_file=None if nofile else os.path.join(d, "base.h5"), progress_interval=10 ** 9,
+                              include_screening=screening, screening_tolerance=1e-2)
     cur = {"source": 1.0, "drain": -1.0} if kind in ("bar", "barhole") else None
     sol = tdgl.solve(dev, opts, applied_vector_potential=0.2, terminal_currents=cur)
     _BASE[key] = sol
@@ -222,6 +224,8 @@ def raising_is_an_observation(kind):
         def wrapped(tdgl, args, tmp, *more):
             try:
                 return fn(tdgl, args, tmp, *more)
+            except core.MachineryFailure:
+                raise
             except Exception as e:
                 import traceback
 
@@ -446,10 +450,16 @@ def frame_id_obj(I, data):
     return I("frame", int(data.step), tuple(parts), tuple(state))
 
 
-def dyn_id(I, dyn):
+def dyn_rec(I, dyn):
     if dyn is None:
-        return 0
-    return I("dyn", I.arr(dyn.dt), I.arr(dyn.mu), I.arr(dyn.theta), I.arr(dyn.screening_iterations))
+        return {f: 0 for f in ("dt", "time", "mu", "theta", "screening_iterations")}
+    return {f: I.arr(getattr(dyn, f)) for f in ("dt", "time", "mu", "theta", "screening_iterations")}
+
+
+def derived(I, sol, queries):
+    """Solution.times and closest_solve_step at fixed query times."""
+    times = sol.times
+    return I.arr(times), I("closest", tuple(int(sol.closest_solve_step(t)) for t in queries))
 
 
 RUNS = {1: (0, 100), 2: (3, 100), 3: (4, 2), 4: (5, 2)}      # nframes -> (steps, save_every)
@@ -461,26 +471,43 @@ def solution_case(tdgl, args, tmp):
 
     shape = args["shape"]
     nsteps, k = RUNS[shape["nframes"]]
-    base = base_solution(tdgl, tmp, nsteps=nsteps, k=k, kind=args.get("dev", "barhole"))
+    probes = 2 if shape["probes"] else 0
+    dev = args.get("dev", "barhole")
     I = Interner()
     d = tempfile.mkdtemp(prefix="psol", dir=tmp)
     work = os.path.join(d, "work.h5")
-    shutil.copy(base.path, work)
-    with h5py.File(work, "r") as f:
-        steps = sorted(int(s) for s in f["data"])
-        frames = [frame_id_raw(I, f, s) for s in steps]
-    orig = tdgl.Solution.from_hdf5(work, solve_step=shape["cur"] - 1)
-    ev = [{"ev": "made", "saved": {"frames": frames, "dyn": dyn_id(I, orig.dynamics)}}]
-    tr = {"kind": "solution", "shape": shape, "ev": ev, "label": f"solution {json.dumps(shape, sort_keys=True)}"}
+    if shape["mode"] == "nofile":
+        # the Solution solve() returns for output_file=None: it holds the last step and the dynamics, its file is gone
+        orig = base_solution(tdgl, tmp, nsteps=nsteps, k=k, kind=dev, probes=probes, screening=shape["screening"], nofile=True)
+        if orig.saved_on_disk:
+            raise core.MachineryFailure("solution of a run with output_file=None is backed by a file")
+        n = int(orig.data_range[1] - orig.data_range[0] + 1)
+        steps = list(range(int(orig.data_range[0]), int(orig.data_range[1]) + 1))
+        frames = [0] * (n - 1) + [frame_id_obj(I, orig.tdgl_data)]        # only the step it holds can be known
+    else:
+        base = base_solution(tdgl, tmp, nsteps=nsteps, k=k, kind=dev, probes=probes, screening=shape["screening"])
+        shutil.copy(base.path, work)
+        with h5py.File(work, "r") as f:
+            steps = sorted(int(s) for s in f["data"])
+            frames = [frame_id_raw(I, f, s) for s in steps]
+        orig = tdgl.Solution.from_hdf5(work, solve_step=shape["cur"] - 1)
+    total = float(orig.dynamics.time[-1]) if len(orig.dynamics.time) else 1.0
+    queries = [0.0, 0.26 * total, 0.5 * total, 0.74 * total, total, 2 * total]
+    otimes, oclosest = derived(I, orig, queries)
+    ev = [{"ev": "made", "saved": {"frames": frames, "dyn": dyn_rec(I, orig.dynamics), "times": otimes, "closest": oclosest}}]
+    tr = {"kind": "solution", "shape": shape, "ev": ev, "label": f"solution {json.dumps(shape, sort_keys=True)} dev={dev}"}
     if shape["mode"] == "copy":
         path = os.path.join(d, "copy.h5")
         ok, _, err = guarded(lambda: orig.to_hdf5(path))
     elif shape["mode"] == "inplace":
         path = work
         ok, _, err = guarded(lambda: orig.to_hdf5())
-    else:
+    elif shape["mode"] == "deleted":
         path = os.path.join(d, "after_delete.h5")
-        os.remove(work)
+        orig.delete_hdf5()
+        ok, _, err = guarded(lambda: orig.to_hdf5(path))
+    else:
+        path = os.path.join(d, "from_memory.h5")
         ok, _, err = guarded(lambda: orig.to_hdf5(path))
     if not ok:
         ev.append({"ev": "save", "ok": False, "err": err, "rec": {"frames": []}})
@@ -488,18 +515,20 @@ def solution_case(tdgl, args, tmp):
     with h5py.File(path, "r") as f:
         fsteps = sorted(int(s) for s in f["data"])
         ev.append({"ev": "save", "ok": True, "rec": {"frames": [frame_id_raw(I, f, s) for s in fsteps]}})
-    lframes, ldyn, eqs, err = [], 0, [], ""
+    lframes, ldyn, ltimes, lclosest, eqs, err = [], dyn_rec(I, None), 0, 0, [], ""
+    nofile = shape["mode"] in ("deleted", "nofile")
     try:
         for n, s in enumerate(fsteps):
             lo = tdgl.Solution.from_hdf5(path, solve_step=s)
             lframes.append(frame_id_obj(I, lo.tdgl_data))
-            ldyn = dyn_id(I, lo.dynamics)
-            if shape["mode"] == "deleted" or s == shape["cur"] - 1 + steps[0]:
+            ldyn = dyn_rec(I, lo.dynamics)
+            ltimes, lclosest = derived(I, lo, queries)
+            if nofile or s == shape["cur"] - 1 + steps[0]:
                 eqs.append(lo.equals(orig))
         ok = True
     except Exception as e:
         ok, err = False, f"{type(e).__name__}: {str(e)[:160]}"
-    ev.append({"ev": "load", "ok": ok, "err": err, "rec": {"frames": lframes, "dyn": ldyn},
+    ev.append({"ev": "load", "ok": ok, "err": err, "rec": {"frames": lframes, "dyn": ldyn, "times": ltimes, "closest": lclosest},
                "eq": "T" if eqs and all(r is True or (isinstance(r, np.bool_) and bool(r)) for r in eqs) else ("F" if eqs else "none")})
     return tr
 
